@@ -218,7 +218,7 @@ def fixedstruct_window(prog, rep, rid):
             return "T"
         if root[0] == "call" and root[1] == "convert_datetime_tvpair":
             return conv.get(root[2])
-        if root[0] == "const":
+        if root[0] == "const" and "tv_pair_type" in root[1] and '"0": 0' in root[1] and '"1": 0' in root[1]:
             return "ZERO"
         return None
 
@@ -250,7 +250,7 @@ def fixedstruct_window(prog, rep, rid):
                 if d[0] == "cmp":
                     _, op, x, y, outcome = d
                     rx, ry = classify_root(x), classify_root(y)
-                    if "ZERO" in (rx, ry):
+                    if (rx, ry) in (("T", "ZERO"), ("ZERO", "T")):
                         # the null-record test: a real record is not (0,0)
                         truth_if_nonnull = (op == "ne")
                         if outcome != truth_if_nonnull:
@@ -268,7 +268,9 @@ def fixedstruct_window(prog, rep, rid):
                     elif (rx, ry) == ("B", "T"):
                         rel = decide.FLIP_REL[rb]
                     else:
-                        raise CheckerError("preprocess_timevalues: comparison between %r and %r not recognised" % (x, y))
+                        # a condition on something other than the window: free (both outcomes
+                        # possible); the effect must not depend on it
+                        continue
                     if (rel in decide.TRUTH[op]) != outcome:
                         ok = False
                         break
@@ -294,7 +296,7 @@ def fixedstruct_window(prog, rep, rid):
                 else:
                     raise CheckerError("preprocess_timevalues: decision %r not recognised" % (d,))
             if ok:
-                outs.add("insert" if p.end == "insert" else "skip")
+                outs.add("insert" if p.end == "insert" else ("stop-scan" if p.end == "ret" else "skip"))
         table[key] = outs
         want = "insert" if spec_dt2(sa, sb, ra, rb) == "InRange" else "skip"
         inst = "%s|%s" % (pb.path, key)
